@@ -18,9 +18,12 @@ package raft
 //@ depends C01 C05 C11
 //@ depends C02 C01 C04 C06
 //@ depends C03 C02 C09
+//@ depends C04 C01
 //@ depends C06 C14
 //@ depends C07 C02
 //@ depends C08 C11
+//@ depends C11 C08
+//@ depends C12 C08
 //@ depends C09 C13 C12
 //@ depends C10 C05 C14 C13
 //@ depends C16 C01 C17
